@@ -49,20 +49,20 @@ type c18KindA struct{}
 type c18KindB struct{}
 
 func (*c18KindA) Category() supervisor.ObjectCategory { return supervisor.CategoryBusinessController }
-func (*c18KindA) Kind() string                         { return "C18KindA" }
-func (*c18KindA) DefaultSpec() interface{}             { return &c18Spec{} }
-func (*c18KindA) Status() *supervisor.Status           { return &supervisor.Status{} }
-func (*c18KindA) Close()                               {}
-func (*c18KindA) Init(*supervisor.Spec)                {}
+func (*c18KindA) Kind() string                        { return "C18KindA" }
+func (*c18KindA) DefaultSpec() interface{}            { return &c18Spec{} }
+func (*c18KindA) Status() *supervisor.Status          { return &supervisor.Status{} }
+func (*c18KindA) Close()                              {}
+func (*c18KindA) Init(*supervisor.Spec)               {}
 func (*c18KindA) Inherit(*supervisor.Spec, supervisor.Object) {
 }
 
 func (*c18KindB) Category() supervisor.ObjectCategory { return supervisor.CategoryBusinessController }
-func (*c18KindB) Kind() string                         { return "C18KindB" }
-func (*c18KindB) DefaultSpec() interface{}             { return &c18Spec{} }
-func (*c18KindB) Status() *supervisor.Status           { return &supervisor.Status{} }
-func (*c18KindB) Close()                               {}
-func (*c18KindB) Init(*supervisor.Spec)                {}
+func (*c18KindB) Kind() string                        { return "C18KindB" }
+func (*c18KindB) DefaultSpec() interface{}            { return &c18Spec{} }
+func (*c18KindB) Status() *supervisor.Status          { return &supervisor.Status{} }
+func (*c18KindB) Close()                              {}
+func (*c18KindB) Init(*supervisor.Spec)               {}
 func (*c18KindB) Inherit(*supervisor.Spec, supervisor.Object) {
 }
 
